@@ -2,6 +2,7 @@ import BppModel.LU
 import BppProofs.Lemmas.ScalarReal
 import Mathlib.LinearAlgebra.Matrix.Block
 import Mathlib.Algebra.BigOperators.Fin
+import Mathlib.GroupTheory.Perm.Fin
 /-! Helper lemmas for C05 (LU decomposition).  Property theorems are in `Props/C05.lean`. -/
 namespace Bpp.LU
 open Bpp
@@ -148,6 +149,59 @@ theorem findPivot_spec (W : Mat ℝ m n) (k : Fin n) (kr : Fin m) :
         · exact hp2 i hi (Or.inr hi2)
     · simp only [h1, if_false]
       refine ⟨hp1, ?_⟩
+      intro i hi hi2
+      rcases hi2 with hi2 | hi2
+      · by_cases h3 : i.val < i0.val
+        · exact hp2 i hi (Or.inl h3)
+        · have : i = kr := by ext; omega
+          exact hp2 i hi (Or.inr this)
+      · exact hp2 i hi (Or.inr hi2)
+
+/-- strict `>` in the search: the pivot row is the *first* row of largest magnitude -/
+theorem findPivot_first (W : Mat ℝ m n) (k : Fin n) (kr : Fin m) :
+    ∀ i : Fin m, kr.val ≤ i.val → i.val < (findPivot W k kr).val →
+      |W.get i k| < |W.get (findPivot W k kr) k| := by
+  have key := foldl_inv (σ := Fin m)
+    (fun t p => (∀ i : Fin m, kr.val ≤ i.val → (i.val < t ∨ i = kr) → |W.get i k| ≤ |W.get p k|) ∧
+      (∀ i : Fin m, kr.val ≤ i.val → i.val < p.val → |W.get i k| < |W.get p k|))
+    m (fun p i =>
+      if kr.val < i.val then
+        (if Scalar.gtb (numAbs (W.get i k)) (numAbs (W.get p k)) then i else p)
+      else p) kr ?_ ?_
+  · exact key.2
+  · refine ⟨?_, ?_⟩
+    · intro i _ hi
+      rcases hi with hi | hi
+      · omega
+      · subst hi; exact le_refl _
+    · intro i h1 h2; omega
+  · intro i0 p ⟨hp2, hp3⟩
+    simp only [ScalarReal.gtb_iff, numAbs_eq]
+    by_cases h1 : kr.val < i0.val
+    · simp only [h1, if_true]
+      by_cases h2 : |W.get p k| < |W.get i0 k|
+      · simp only [h2, if_true]
+        refine ⟨?_, ?_⟩
+        · intro i hi hi2
+          rcases hi2 with hi2 | hi2
+          · by_cases h3 : i.val < i0.val
+            · exact le_trans (hp2 i hi (Or.inl h3)) (le_of_lt h2)
+            · have : i = i0 := by ext; omega
+              subst this; exact le_refl _
+          · exact le_trans (hp2 i hi (Or.inr hi2)) (le_of_lt h2)
+        · intro i hi hi2
+          exact lt_of_le_of_lt (hp2 i hi (Or.inl hi2)) h2
+      · simp only [h2, if_false]
+        refine ⟨?_, hp3⟩
+        intro i hi hi2
+        rcases hi2 with hi2 | hi2
+        · by_cases h3 : i.val < i0.val
+          · exact hp2 i hi (Or.inl h3)
+          · have : i = i0 := by ext; omega
+            subst this; exact not_lt.mp h2
+        · exact hp2 i hi (Or.inr hi2)
+    · simp only [h1, if_false]
+      refine ⟨?_, hp3⟩
       intro i hi hi2
       rcases hi2 with hi2 | hi2
       · by_cases h3 : i.val < i0.val
@@ -499,6 +553,37 @@ theorem permInv_factor (h : n ≤ m) (A : Mat ℝ m n) : PermInv (factor h A) :=
   unfold factor
   exact foldl_inv (fun _ s => PermInv s) n (step h) (init A) (permInv_init A)
     (fun k t hk => permInv_step h t k hk)
+
+theorem foldl_mul_eq_prod_int {k : Nat} (f : Fin k → ℤ) (c : ℤ) :
+    Fin.foldl k (fun d j => d * f j) c = c * ∏ j : Fin k, f j := by
+  induction k with
+  | zero => simp
+  | succ k ih =>
+    rw [Fin.foldl_succ_last, Fin.prod_univ_castSucc, ih]
+    ring
+
+/-- the executable sign (product over position pairs) is `Equiv.Perm.sign` -/
+theorem pivSignOf_eq_sign (piv : Vector (Fin m) m) (σ : Equiv.Perm (Fin m))
+    (hσ : ∀ i : Fin m, piv[i.val]'i.isLt = σ i) : pivSignOf piv = ((Equiv.Perm.sign σ : ℤˣ) : ℤ) := by
+  unfold pivSignOf
+  simp only [foldl_mul_eq_prod_int, one_mul, hσ]
+  rw [Equiv.Perm.sign_eq_prod_prod_Iio]
+  simp only [Units.coe_prod]
+  apply Finset.prod_congr rfl
+  intro j _
+  have : Finset.Iio j = Finset.univ.filter (fun i : Fin m => i.val < j.val) := by
+    ext i; simp only [Finset.mem_Iio, Finset.mem_filter, Finset.mem_univ, true_and, Fin.lt_def]
+  rw [this, Finset.prod_filter]
+  apply Finset.prod_congr rfl
+  intro i _
+  by_cases h1 : i.val < j.val
+  · rw [if_pos h1, if_pos h1]
+    by_cases h2 : σ i < σ j
+    · have h2' : (σ i).val < (σ j).val := h2
+      rw [if_pos h2, if_pos h2']; simp
+    · have h2' : ¬ (σ i).val < (σ j).val := h2
+      rw [if_neg h2, if_neg h2']; simp
+  · rw [if_neg h1, if_neg h1]
 
 end Perm
 
